@@ -123,7 +123,7 @@ func c38Check(c *hist.Case, r *evid.Rec) []evid.Disc {
 	}
 	nontrivial := false
 	for _, s := range run.Steps {
-		if c := cause(s); c == "takeover" || c == "publish-with-queue-full-drop" || (s.A.Kind == "tick" && s.A.Tick != "sys") {
+		if c := cause(s); c == "takeover" || c == "publish-with-queue-full-drop" || (s.A.Kind == "tick" && s.A.Tick != "sys") || s.A.Kind == "release" {
 			nontrivial = true
 		}
 	}
@@ -133,7 +133,48 @@ func c38Check(c *hist.Case, r *evid.Rec) []evid.Disc {
 	return withTranscript(ds, run)
 }
 
+// c38GenLimitRace: connection attempts racing for the last slots of a small MaximumClients (handlers parked between
+// the limit check and the counter increment, released in generated order), then some of them leave again.
+func c38GenLimitRace(rt *rapid.T) *hist.Case {
+	c := &hist.Case{}
+	c.Cfg.ClientPIDBase = 1000
+	L := rapid.IntRange(1, 3).Draw(rt, "max-clients")
+	c.Cfg.MaximumClients = int64(L)
+	n := L + rapid.IntRange(1, 3).Draw(rt, "extra")
+	for cl := 0; cl < n; cl++ {
+		a := hist.Action{Kind: "connect", Client: cl, Version: pick(rt, "version", []byte{4, 5}), Clean: true, AutoAck: true}
+		if rapid.IntRange(0, 3).Draw(rt, "parked") != 0 {
+			a.Park = []string{"attach.afterLimitCheck"}
+		}
+		c.Actions = append(c.Actions, a)
+	}
+	for _, cl := range rapid.Permutation(seq(n)).Draw(rt, "release-order") {
+		c.Actions = append(c.Actions, hist.Action{Kind: "release", Client: cl})
+	}
+	for cl := 0; cl < n; cl++ {
+		switch rapid.IntRange(0, 3).Draw(rt, "then") {
+		case 0:
+			c.Actions = append(c.Actions, hist.Action{Kind: "drop", Client: cl})
+		case 1:
+			c.Actions = append(c.Actions, hist.Action{Kind: "connect", Client: cl, Version: 4, Clean: true, AutoAck: true})
+		}
+	}
+	c.Actions = append(c.Actions, hist.Action{Kind: "tick", Tick: "sys"})
+	return c
+}
+
+func seq(n int) []int {
+	out := make([]int, n)
+	for i := range out {
+		out[i] = i
+	}
+	return out
+}
+
 func c38Gen(rt *rapid.T) *hist.Case {
+	if rapid.IntRange(0, 5).Draw(rt, "limit-race") == 0 {
+		return c38GenLimitRace(rt)
+	}
 	g := defaultHistGen()
 	g.NClients = 3
 	g.Versions = []byte{4, 5, 5}
@@ -178,7 +219,7 @@ func c38Gen(rt *rapid.T) *hist.Case {
 }
 
 func TestC38(t *testing.T) {
-	r := evid.New("C38", "rapid: histories over 3 clients (v3.1.1 / v5): connect (clean start 0/1, expiry 0/5/100, Receive Maximum absent/2), takeovers, subscribe (nested, wildcard and $share filters), unsubscribe (also of filters never subscribed or held by others), retained publishes and clears, QoS 0-2 with prompt or manual acknowledgement, disconnects and drops, bursts, small write queues (queue-full drops) or small in-flight limits, housekeeping ticks (session expiry, retained expiry, in-flight expiry at virtual times), finally a $SYS tick observed by a $SYS/# subscriber. Oracle after EVERY step (quiescent): Info.ClientsConnected == open established connections (harness count); Info.Subscriptions == sum of the registered clients' subscriptions (cross-checked against the session model); Info.Retained == size of the retained store; Info.Inflight == sum of the clients' in-flight stores; no counter negative; $SYS payloads == counters. Non-trivial = the history contains a takeover, a queue-full drop or a housekeeping tick; distinct by history")
+	r := evid.New("C38", "rapid: histories over 3 clients (v3.1.1 / v5): connect (clean start 0/1, expiry 0/5/100, Receive Maximum absent/2), takeovers, subscribe (nested, wildcard and $share filters), unsubscribe (also of filters never subscribed or held by others), retained publishes and clears, QoS 0-2 with prompt or manual acknowledgement, disconnects and drops, bursts, small write queues (queue-full drops) or small in-flight limits, housekeeping ticks (session expiry, retained expiry, in-flight expiry at virtual times), finally a $SYS tick observed by a $SYS/# subscriber; one case in six instead races 2-6 connection attempts for the last slots of MaximumClients 1-3 (handlers parked between the limit check and the counter increment, released in generated order). Oracle after EVERY step (quiescent): Info.ClientsConnected == open established connections (harness count); Info.Subscriptions == sum of the registered clients' subscriptions (cross-checked against the session model); Info.Retained == size of the retained store; Info.Inflight == sum of the clients' in-flight stores; no counter negative; $SYS payloads == counters. Non-trivial = the history contains a takeover, a queue-full drop or a housekeeping tick; distinct by history")
 	defer r.Finish(t)
 	if evid.ReplayMode() {
 		evid.Replay(t, r, replayPath(), c38Check)
